@@ -6,6 +6,7 @@ import (
 	"context"
 	"fmt"
 	"sort"
+	"strings"
 	"testing"
 	"testing/synctest"
 	"time"
@@ -295,7 +296,10 @@ func runHistory(t *testing.T, inst InstD, reqs []ReqD) (obs []ExecObs, start int
 			} else if rq.CtxKey >= 0 {
 				ctx = context.WithValue(ctx, cachepolicy.CacheKey, keyName(rq.CtxKey))
 			}
-			if rq.ExtT > 0 {
+			var asyncCancel func()
+			if rq.ExtT > 0 && rq.ExtKind == "AsyncCancel" {
+				// ExecutionResult.Cancel() at the given instant (async entry points only)
+			} else if rq.ExtT > 0 {
 				if rq.ExtKind == "Deadline" {
 					ctx, cancel = context.WithDeadline(ctx, time.Now().Add(time.Duration(rq.ExtT)))
 				} else {
@@ -358,15 +362,27 @@ func runHistory(t *testing.T, inst InstD, reqs []ReqD) (obs []ExecObs, start int
 				err = ex.Run(func() error { _, e := body(nil); return e })
 			case "RunWithExecution":
 				err = ex.RunWithExecution(func(x failsafe.Execution[int]) error { _, e := body(x); return e })
-			case "GetAsync":
-				res, err = ex.GetAsync(func() (int, error) { return body(nil) }).Get()
-			case "GetWithExecutionAsync":
-				res, err = ex.GetWithExecutionAsync(body).Get()
-			case "RunAsync":
-				err = ex.RunAsync(func() error { _, e := body(nil); return e }).Error()
 			default:
-				err = ex.RunWithExecutionAsync(func(x failsafe.Execution[int]) error { _, e := body(x); return e }).Error()
+				var ar failsafe.ExecutionResult[int]
+				switch rq.Entry {
+				case "GetAsync":
+					ar = ex.GetAsync(func() (int, error) { return body(nil) })
+				case "GetWithExecutionAsync":
+					ar = ex.GetWithExecutionAsync(body)
+				case "RunAsync":
+					ar = ex.RunAsync(func() error { _, e := body(nil); return e })
+				default:
+					ar = ex.RunWithExecutionAsync(func(x failsafe.Execution[int]) error { _, e := body(x); return e })
+				}
+				if rq.ExtT > 0 && rq.ExtKind == "AsyncCancel" {
+					timer = time.AfterFunc(time.Duration(rq.ExtT), ar.Cancel)
+				}
+				res, err = ar.Get()
+				if strings.HasPrefix(rq.Entry, "Run") {
+					res = 0
+				}
 			}
+			_ = asyncCancel
 			end := log.now()
 			if timer != nil {
 				timer.Stop()
